@@ -164,6 +164,7 @@ pub fn gen_world_cfg(s: &mut Src, prof: &Profile) -> WorldCfg {
             _ => 255,
         },
         peer_allowance: s.chance(1, 2),
+        separate_factory_admin: false,
     }
 }
 
@@ -855,7 +856,7 @@ pub fn gen_admin(w: &World, s: &mut Src, _prof: &Profile) -> Step {
             code_id: match s.below(3) { 0 => Some(w.codes.pair), 1 => Some(w.codes.pair_alt), _ => None },
         },
         // the factory itself is migrated (to its own code) by its chain-level admin, the owner
-        _ => return Step { sender: owner, call: Call::Migrate { contract: w.factory.to_string(), code_id: w.codes.factory }, funds: vec![] },
+        _ => return Step { sender: w.factory_admin.to_string(), call: Call::Migrate { contract: w.factory.to_string(), code_id: w.codes.factory }, funds: vec![] },
     };
     Step { sender: owner, call: Call::Factory { msg }, funds: vec![] }
 }
